@@ -6,8 +6,21 @@ import prop
 import streams
 from common import sub_seed
 
-THEOREMS = ["LNN.C08_every_object_numbered", "LNN.C08_numbers_injective", "LNN.C08_registered_once",
-            "LNN.C08_nodes_exactly_reachable", "LNN.C08_graph_exactly_reachable", "LNN.C08_readd_keeps_number"]
+THEOREMS = ["LNN.C08_every_object_numbered",
+            "LNN.C08_numbers_injective",
+            "LNN.C08_registered_once",
+            "LNN.C08_nodes_own_number",
+            "LNN.C08_nodes_functional",
+            "LNN.C08_nodes_lookup",
+            "LNN.C08_nodes_exactly_reachable",
+            "LNN.C08_graph_exactly_reachable",
+            "LNN.C08_graph_nodup",
+            "LNN.C08_values_exactly_reachable",
+            "LNN.C08_values_nodup",
+            "LNN.C08_readd_keeps_number",
+            "LNN.C08_readd_root",
+            "LNN.C08_calls",
+            "LNN.C08_inv"]
 MODULES = ["LnnVerif.Props.C08"]
 FACETS = {"bounds", "reported"}
 
